@@ -29,6 +29,7 @@ Two further case kinds watch the wrappers themselves:
 import datetime
 import os
 import pickle
+import random
 import shutil
 import signal
 import subprocess
@@ -41,7 +42,8 @@ LEVEL = "exploration"
 RULE = ("case kinds: 'product' = one seeded history (1..4 transactions; deletes first, then adds/updates of distinct keys; "
         "schema options vector/chars/sortable/boosts) run through the reference configuration and 5 (quick) / 8 (thorough) "
         "sampled configurations of storage x packing x non-multiprocess front-end; 'mp' = the same with 1-2 MpWriter "
-        "configurations (procs 2..4 x batchsize 1/3/100 x multisegment) each in its own subprocess; 'bw' = a step-wise "
+        "configurations (procs 2..4 x batchsize 1/3/100 x multisegment) each in its own subprocess; segment / serial-mp / "
+        "mp writers get limitmb in {default, 1e-5, 2e-4, 2e-3} (tiny posting pools that spill sorted runs); 'bw' = a step-wise "
         "BufferedWriter program against a dict model (sequential, threaded, timer variants); 'async_multi' = 2..4 AsyncWriters "
         "queued behind one lock holder (AsyncWriter behind a held lock with explicit sequencing is also one of the product "
         "front-ends). A product/mp case is non-trivial when the history has >= 2 documents and the "
@@ -78,7 +80,7 @@ BUDGET_S = {"quick": 75, "thorough": 720}
 FLOORS = {"c18.configs": 150, "c18.dump.compares": 200, "c18.fe.seg": 30, "c18.fe.serialmp": 16, "c18.fe.buffered": 35,
           "c18.fe.async": 40, "c18.fe.mp": 18, "c18.mp.completed": 18, "c18.storage.file": 40, "c18.storage.nommap": 40,
           "c18.storage.ram": 32, "c18.storage.toram": 32, "c18.packing.compound": 75, "c18.packing.loose": 75,
-          "c18.final.multisegment": 85, "c18.model.checks": 40, "c18.model.probe_checks": 320,
+          "c18.final.multisegment": 85, "c18.final.spilling_pool": 40, "c18.final.spilling_pool.mp": 3, "c18.final.spilling_pool.serialmp": 3, "c18.model.checks": 40, "c18.model.probe_checks": 320,
           "c18.probe.compares": 1600, "c18.score.compares": 2700, "c18.stats.compares": 80, "c18.optimize.compares": 48,
           "c18.async.blocked_txs": 50, "c18.async.order.blocked.retries0.release_before_commit": 15,
           "c18.async.order.blocked.retries3.release_after_commit": 15, "c18.async.order.free.retries0.release_-": 20,
@@ -441,6 +443,8 @@ def run_history_inproc(st, h, cfg, rng, info):
     from whoosh.multiproc import SerialMpWriter
     fe = cfg["fe"]
     wa = {} if cfg["compound"] else {"compound": False}
+    if fe.get("limitmb"):
+        wa["limitmb"] = fe["limitmb"]      # tiny posting pool: every few documents spill a sorted run to disk
     ix = st.create_index(make_schema(h["opts"]))
     txs = h["txs"]
     toram_at = cfg.get("toram_at")
@@ -686,13 +690,14 @@ REF_CFG = {"storage": "file", "compound": True, "fe": {"kind": "seg"}}
 
 
 def gen_fe(rng, kind):
+    limitmb = random.Random("c18-limitmb:%r" % rng.random()).choice([None, None, 0.00001, 0.0002, 0.002])
     if kind == "seg":
-        return {"kind": "seg"}
+        return {"kind": "seg", "limitmb": limitmb}
     if kind == "serialmp":
-        return {"kind": "serialmp", "procs": rng.choice([1, 2, 3, 4])}
+        return {"kind": "serialmp", "procs": rng.choice([1, 2, 3, 4]), "limitmb": limitmb}
     if kind == "mp":
         return {"kind": "mp", "procs": rng.choice([2, 3, 4]), "batchsize": rng.choice([1, 3, 100]),
-                "multisegment": rng.random() < 0.5}
+                "multisegment": rng.random() < 0.5, "limitmb": limitmb}
     if kind == "buffered":
         return {"kind": "buffered", "limit": rng.choice([1, 3, 100]), "period": rng.choice([None, None, 0.05, 600]),
                 "commitargs": rng.choice([{}, {}, {"merge": False}, {"optimize": True}])}
@@ -865,6 +870,9 @@ def case_product(ctx, idx, rng, mp):
                 ctx.count("c18.compares.with_scores")
             if same and got["nseg"] > 1:
                 ctx.count("c18.final.multisegment")
+            if same and cfg["fe"].get("limitmb"):
+                ctx.count("c18.final.spilling_pool")
+                ctx.count("c18.final.spilling_pool." + cfg["fe"]["kind"])
             if got["empty_segments"]:
                 ctx.count("c18.final.with_zero_document_segments")
                 if no_removal:
